@@ -13,14 +13,22 @@ from bctmc import smallscope as ss
 from bctmc import named
 from bctmc.runner import guarded
 from bctmc.tally import Tally
+from bctmc import dtypes
 
 PROPERTY = 'C15'
-RULE = ('every free tree on 8 nodes under the scan orders of bctmc/trees.py (951 labelled trees, 0/1); the structured 7-10 node family of bctmc/named.py and all undirected graphs n<=6 x k=0..n; all digraphs n<=4 x k=0..2n-1 '
+RULE = ('element types: every routine also on int64 / int32 / uint8 / bool copies of all 3-node digraphs over {0,1} and {0,1,2}, 4-node graphs over {0,1,2}, 5-node binary graphs (same values as for float64; integers must not raise, a boolean matrix may be rejected with TypeError); every free tree on 8 nodes under the scan orders of bctmc/trees.py (951 labelled trees, 0/1); the structured 7-10 node family of bctmc/named.py and all undirected graphs n<=6 x k=0..n; all digraphs n<=4 x k=0..2n-1 '
         '(n<=3 and 4-node digraphs in quick); symmetric weights {1,2,3}, {0.5,1,1.5} and the non-dyadic {0.3,0.6} on 4 nodes x s on a 0.25 '
         'grid up to max strength+0.25; coreness on every graph; non-trivial = (graph,k) whose peeling needs >= 2 '
         'rounds (removing one node drags others below the bound)')
 ASSUMPTIONS = ['float64 0/1 (or listed weight) matrices with empty diagonal',
                'reference: union of all node subsets meeting the bound internally, by enumeration of all 2^n subsets']
+
+
+ETYPE_FUNCS = [('kcore_bu[%d]' % k, (lambda A, k=k: bct.kcore_bu(A, k, peel=True)), lambda A, d: not d) for k in (1, 2, 3)] + \
+    [('kcore_bd[%d]' % k, (lambda A, k=k: bct.kcore_bd(A, k, peel=True)), None) for k in (1, 2, 3, 4)] + \
+    [('score_wu[2]', lambda A: bct.score_wu(A, 2), lambda A, d: not d),
+     ('kcoreness_centrality_bu', bct.kcoreness_centrality_bu, lambda A, d: not d),
+     ('kcoreness_centrality_bd', bct.kcoreness_centrality_bd, None)]
 
 
 def plan(ctx):
@@ -45,6 +53,7 @@ def plan(ctx):
         tot = ss.und_count(5, (0, 1, 2))
         for (a, b) in ss.ranges(tot, 256):
             units.append(('wu', 5, (0, 1, 2), a, b))
+    units += dtypes.units(dtypes.STD_FAMILIES)
     return units
 
 
@@ -196,6 +205,8 @@ def check_graph(t, kind, A, base):
 
 
 def work(unit):
+    if unit[0] == 'etype':
+        return dtypes.work_unit(PROPERTY, ETYPE_FUNCS, unit)
     kind, n, alpha, a, b = unit
     t = Tally(PROPERTY)
     for idx in range(a, b):
@@ -218,6 +229,8 @@ def work(unit):
 
 
 def replay(rec):
+    if rec['case'].get('family') == 'element_types':
+        return dtypes.replay(PROPERTY, ETYPE_FUNCS, rec['case'])
     t = Tally(PROPERTY)
     c = rec['case']
     A = np.array(c['A'], dtype=float)
